@@ -1,6 +1,7 @@
 import Std.Data.HashMap
 import Got.Drv.Common
 import Got.Model.MSQueue
+import Got.Model.MSQueueGen
 /-
 drv_msqueue (properties C01, C02)
 
@@ -8,6 +9,9 @@ drv_msqueue (properties C01, C02)
   drv_msqueue explore c01 <stride> <prog…>   schedule set with TRANSITION COVERAGE of the reachable state graph
   drv_msqueue explore c02 <stride> <prog…>   one line (shortest prefix, busy tid) per reachable state and busy thread
   drv_msqueue stats <prog…>            number of states / transitions of the configuration
+  drv_msqueue ast                      like `run`, but on the LTS GENERATED from the source (Got/Model/MSQueueGen.lean:
+                                       AtomicIR semantics of the programs tools/srcfacts re-translates from loom/queue.go on
+                                       every run); prints only the part that is compared with the harness line
 
 script line:   prog 0:push1,pop 1:push2 | sched 0 0 1 1 0 …            (C01)
                prog 0:push1,pop 1:push2 | sched 0 0 1 | solo 1          (C02)
@@ -219,6 +223,186 @@ def runLine (line : String) : String :=
     | _, _ => "bad-line"
   | _ => if line.trimAscii.isEmpty then "" else "bad-line"
 
+
+/-! ### `ast` mode: the same schedules on the LTS generated from the source (Got/Model/MSQueueGen.lean)
+
+Nothing of the hand-written model is consulted here: states are `AtomicIR.GState`s, steps are `MSQueueGen.gstep`,
+the token of a step is the access `AtomicIR.exec` reports (kind, resolved address, loaded value / CAS outcome).
+The chain (link order of the nodes, used only to *name* nodes like the harness does) is tracked by the driver:
+a successful CAS on `x.next` appends the node it stored. -/
+namespace Ast
+open Got.Model.AtomicIR Got.Model.MSQueueGen
+
+structure GCfg where
+  g : GState
+  rem : Array (List OpK)
+  chain : List Nat
+
+instance : Inhabited GCfg := ⟨⟨genInit, #[], [0]⟩⟩
+
+def gName (chain : List Nat) (x : Nat) : String :=
+  if x ∈ chain then s!"n{chain.idxOf x}" else s!"u{x}"
+
+def gVal (chain : List Nat) : Val → String
+  | .ptr none => "nil"
+  | .ptr (some x) => gName chain x
+  | .data v => s!"d{v}"
+  | .i64 w => s!"i{w.toInt}"
+  | .i32 w => s!"w{w.toInt}"
+  | .int i => s!"{i}"
+  | .panic => "panic"
+  | .bool b => okFail b
+
+def gAddr (chain : List Nat) : RAddr → String
+  | .head => "head"
+  | .tail => "tail"
+  | .next n => s!"{gName chain n}.next"
+  | .cell => "cell"
+  | .cell32 => "cell32"
+  | .pos => "pos"
+  | .slot i => s!"slot{i}"
+  | .chan c => s!"chan{c}"
+
+def gTok (chain : List Nat) (tk : Option Tok) : String :=
+  match tk with
+  | none => "noaccess"
+  | some ⟨false, a, v⟩ => s!"ld:{gAddr chain a}={gVal chain v}"
+  | some ⟨true, a, v⟩ => s!"cas:{gAddr chain a}:{gVal chain v}"
+
+def gIdle (c : Config) : Bool := Got.Model.AtomicIR.isIdle c
+
+def gIsCrash : Config → Bool
+  | .crash => true
+  | .stuck => true
+  | _ => false
+
+def gRetTok (t : Nat) (g : GState) : String :=
+  match g.hist.getLast? with
+  | some (_, .ret none) => s!"{t}:ret:push"
+  | some (_, .ret (some (.ptr none))) => s!"{t}:ret:pop=nil"
+  | some (_, .ret (some (.data v))) => s!"{t}:ret:pop={v}"
+  | _ => s!"{t}:ret:?"
+
+def gLive (c : GCfg) (t : Nat) : Bool :=
+  if h : t < c.rem.size then
+    if gIsCrash (c.g.conf t) then false
+    else if gIdle (c.g.conf t) then !(c.rem[t]).isEmpty
+    else true
+  else false
+
+/-- the chain after a step whose access was `tk` -/
+def gChain (chain : List Nat) (g' : GState) : Option Tok → List Nat
+  | some ⟨true, .next x, .bool true⟩ =>
+    match g'.mem.next x with
+    | some n => chain ++ [n]
+    | none => chain
+  | _ => chain
+
+def gTau (c : GCfg) (t : Nat) : GCfg × List String :=
+  let tk := (stepThread noPred c.g.mem (c.g.conf t)).bind (·.tok)
+  let tok := s!"{t}:{gTok c.chain tk}"
+  let g' := gstep c.g (.tau t)
+  let extra :=
+    if gIdle (g'.conf t) then [gRetTok t g']
+    else match g'.conf t with
+      | .crash => [s!"{t}:crash"]
+      | .stuck => [s!"{t}:stuck"]
+      | _ => []
+  ({ c with g := g', chain := gChain c.chain g' tk }, tok :: extra)
+
+def gStepTid (c : GCfg) (t : Nat) : GCfg × List String :=
+  if !gLive c t then (c, [s!"{t}:skip"])
+  else if gIdle (c.g.conf t) then
+    match c.rem[t]! with
+    | [] => (c, [s!"{t}:skip"])
+    | .push v :: rest => ({ c with g := gstep c.g (.invPush t v), rem := c.rem.set! t rest }, [s!"{t}:inv:push:{v}"])
+    | .pop :: rest => ({ c with g := gstep c.g (.invPop t), rem := c.rem.set! t rest }, [s!"{t}:inv:pop"])
+  else gTau c t
+
+def gFirstLive (c : GCfg) : Option Nat := (List.range c.rem.size).find? (gLive c)
+
+def gDrain (c : GCfg) : Nat → List String → GCfg × List String
+  | 0, acc => (c, acc ++ ["stuck"])
+  | fuel + 1, acc =>
+    match gFirstLive c with
+    | none => (c, acc)
+    | some t =>
+      let (c', toks) := gStepTid c t
+      gDrain c' fuel (acc ++ toks)
+
+def gFinalTok (c : GCfg) : String :=
+  let vals := c.chain.map (fun x => if x = 0 then "_" else toString (c.g.mem.val x))
+  s!"final head={gVal c.chain (.ptr c.g.mem.head)} tail={gVal c.chain (.ptr c.g.mem.tail)} chain={",".intercalate vals}"
+
+def gRestLoop (T : Nat) : Nat → GState → List String → List String
+  | 0, _, acc => acc ++ ["stuck"]
+  | fuel + 1, g, acc =>
+    if gIdle (g.conf T) then
+      let g' := gstep g (.invPop T)
+      if gIdle (g'.conf T) then        -- a Pop that returns without any shared access (e.g. an empty translation)
+        match g'.hist.getLast? with
+        | some (_, .ret (some (.data v))) => gRestLoop T fuel g' (acc ++ [toString v])
+        | _ => acc ++ ["nil"]
+      else gRestLoop T fuel g' acc
+    else if gIsCrash (g.conf T) then acc ++ ["crash"]
+    else
+      let g' := gstep g (.tau T)
+      if gIdle (g'.conf T) then
+        match g'.hist.getLast? with
+        | some (_, .ret (some (.data v))) => gRestLoop T fuel g' (acc ++ [toString v])
+        | _ => acc ++ ["nil"]
+      else if gIsCrash (g'.conf T) then acc ++ ["crash"]
+      else gRestLoop T fuel g' acc
+
+def gRestTok (c : GCfg) : String :=
+  s!"rest={",".intercalate (gRestLoop c.rem.size drainCap c.g [])}"
+
+def gRunSched (c : GCfg) (sched : List Nat) : GCfg × List String :=
+  sched.foldl (fun (acc : GCfg × List String) t =>
+    let (c', toks) := gStepTid acc.1 t
+    (c', acc.2 ++ toks)) (c, [])
+
+def gSoloRun (c : GCfg) (t : Nat) : Nat → Nat → List String → GCfg × Nat × Bool × List String
+  | 0, k, acc => (c, k, false, acc)
+  | fuel + 1, k, acc =>
+    if gIdle (c.g.conf t) then (c, k, true, acc)
+    else if gIsCrash (c.g.conf t) then (c, k, false, acc)
+    else
+      let (c', toks) := gStepTid c t
+      gSoloRun c' t fuel (k + 1) (acc ++ toks)
+
+def runLine (line : String) : String :=
+  if line.startsWith "stress " then "stress not-modelled" else
+  match line.splitOn " | " with
+  | progS :: schedS :: rest =>
+    match words progS, words schedS with
+    | "prog" :: pw, "sched" :: sw =>
+      match parseProg pw, sw.mapM parseNat? with
+      | some prog, some sched =>
+        let (c1, toks1) := gRunSched { g := genInit, rem := prog, chain := [0] } sched
+        match rest with
+        | [] =>
+          let (c2, toks2) := gDrain c1 drainCap []
+          joinSp toks1 ++ " / " ++ joinSp toks2 ++ " | " ++ gFinalTok c2 ++ " " ++ gRestTok c2
+        | soloS :: _ =>
+          match words soloS with
+          | ["solo", ts] =>
+            match parseNat? ts with
+            | some t =>
+              if gIdle (c1.g.conf t) || gIsCrash (c1.g.conf t) then
+                joinSp toks1 ++ s!" | solo {t} notbusy"
+              else
+                let (_, k, returned, toks2) := gSoloRun c1 t soloCap 0 []
+                let r := if returned then "returned" else "spinning"
+                joinSp toks1 ++ s!" | solo {t} steps={k} {r} : " ++ joinSp toks2
+            | none => "bad-solo"
+          | _ => "bad-solo"
+      | _, _ => "bad-line"
+    | _, _ => "bad-line"
+  | _ => if line.trimAscii.isEmpty then "" else "bad-line"
+
+end Ast
+
 /-! ### exploration of the reachable state graph of a configuration -/
 
 def showPc : Pc → String
@@ -323,6 +507,7 @@ def main (args : List String) : IO Unit := do
   let out ← IO.getStdout
   match args with
   | ["run"] => lineLoop (← IO.getStdin) out (fun (_ : Unit) l => ((), runLine l)) ()
+  | ["ast"] => lineLoop (← IO.getStdin) out (fun (_ : Unit) l => ((), Ast.runLine l)) ()
   | "explore" :: mode :: stride :: pw =>
     match parseProg pw, parseNat? stride with
     | some prog, some st =>
@@ -340,6 +525,6 @@ def main (args : List String) : IO Unit := do
       let ne := g.edges.foldl (fun a es => a + es.size) 0
       out.putStrLn s!"states={g.cfgs.size} transitions={ne}"
     | none => IO.eprintln "bad program"; IO.Process.exit 2
-  | _ => IO.eprintln "usage: drv_msqueue run | explore c01|c02 <stride> <prog…> | stats <prog…>"; IO.Process.exit 2
+  | _ => IO.eprintln "usage: drv_msqueue run | ast | explore c01|c02 <stride> <prog…> | stats <prog…>"; IO.Process.exit 2
 
 end Got.Drv.MSQueue
